@@ -66,6 +66,10 @@ var _ ToChunker = CompressedChunk{}
 
 // NewCompressedChunk creates a CompressedChunk
 func NewCompressedChunk(h hash.Hash, buff []byte) (CompressedChunk, error) {
+	if len(buff) < checksumSize {
+		// too short to even hold the checksum: a corrupted length, not a chunk record
+		return CompressedChunk{}, errors.New("checksum error")
+	}
 	dataLen := uint64(len(buff)) - checksumSize
 
 	chksum := binary.BigEndian.Uint32(buff[dataLen:])
